@@ -16,6 +16,7 @@ import hashlib
 import os
 import re
 import tempfile
+import unicodedata
 from dataclasses import dataclass, field
 from difflib import unified_diff
 from pathlib import Path
@@ -252,6 +253,12 @@ class WriteTool(BaseTool):
                         f"W_REPAIR_CANDIDATE::{original} repaired to {suggested}. "
                         f"Use angle brackets <> for annotation qualifiers, not curly braces {{}}."
                     ),
+                    # I4: the receipt identifies the occurrence (1-based; column on the NFC line, as the lexer counts)
+                    "line": content.count("\n", 0, match.start()) + 1,
+                    "column": len(
+                        unicodedata.normalize("NFC", content[content.rfind("\n", 0, match.start()) + 1 : match.start()])
+                    )
+                    + 1,
                     "before": original,
                     "after": suggested,
                     "safe": True,
